@@ -274,7 +274,7 @@ def valid_derivation(entries, start, der, word, leftmost):
     return d.all_(ok)
 
 
-def job_cfg(job, variables, maxlen, pairs=None):
+def job_cfg(job, variables, maxlen, pairs=None, start_pairs_only=False):
     from gambatools.cfg_algorithms import cfg_derive_word
     from .cfg_sym import sym_cfg, entries_json, GrammarSem
     from .C07 import cnf_candidates
@@ -283,7 +283,10 @@ def job_cfg(job, variables, maxlen, pairs=None):
     d = E.dag
     terminals = ['a', 'b']
     start = variables[0]
-    G, entries = sym_cfg(variables, terminals, cnf_candidates(variables, terminals, start, pairs), start)
+    cands = cnf_candidates(variables, terminals, start, pairs)
+    if start_pairs_only:        # binary rules for the start variable only (keeps the family below the encoder's exact-pruning limit)
+        cands = [(X, r) for X, r in cands if len(r) != 2 or X == start]
+    G, entries = sym_cfg(variables, terminals, cands, start)
     dec = entries_json(entries, variables, terminals, start)
     job.inputs['G'] = G
     job.decoders['G'] = dec
@@ -342,7 +345,7 @@ def jobs(tier):
         add('pda_random%d' % seed, job_pda, fam='random', seed=seed, limit=3, maxlen=2, nsym=4 if q else 7, timeout=tmo)
     add('cfg_2vars', job_cfg, variables=['S', 'A'], maxlen=3 if q else 4, timeout=tmo)
     add('cfg_3vars', job_cfg, variables=['S', 'A', 'B'], pairs=[['A', 'B']] if q else [['A', 'B'], ['B', 'B']], maxlen=3, timeout=tmo)
-    add('cfg_3vars_swapped', job_cfg, variables=['S', 'A', 'B'], pairs=[['A', 'B'], ['B', 'A']], maxlen=2 if q else 3, timeout=tmo)
+    add('cfg_3vars_swapped', job_cfg, variables=['S', 'A', 'B'], pairs=[['A', 'B'], ['B', 'A']], maxlen=2, start_pairs_only=True, timeout=tmo)
     add('cfg_T', job_cfg, variables=['S', 'T'], maxlen=3 if q else 4, timeout=tmo)
     return J
 
